@@ -37,6 +37,7 @@ STD_OPTIONS = [
     ("augment_dims", [("aug", 1), ("aug", 2)]),
     ("generate_augment", [("aug", "gaussian"), ("aug", "zeros")]),
     ("marginalise_augment", [("aug", True)]),
+    ("flow_config<deprecated-layout>", [("oldcfg", {"max_epochs": 5, "patience": 5, "batch_size": 100}), ("oldcfg", {"n_blocks": 2, "n_neurons": 4, "n_layers": 1, "lr": 0.002, "max_epochs": 5, "patience": 5}), ("oldcfg", {"model_config": {"n_blocks": 2, "n_neurons": 4, "n_layers": 1}, "max_epochs": 5, "patience": 5})]),
     ("flow_config.ftype", ["realnvp", "maf", "nsf", ("!", "xyz")]),
     ("flow_config.linear_transform", [None, "permutation", "lu", "svd", ("!", "foo")]),
     ("flow_config.batch_norm_between_layers", [True]),
@@ -132,6 +133,7 @@ INS_OPTIONS = [
     ("run.redraw_samples", [True, ("redraw", {"n_posterior_samples": 20}), ("redraw", {"use_counts": True}), ("redraw", {"optimise_weights": True, "optimisation_method": "kl"}), ("redraw", {"optimise_weights": True, "optimisation_method": "evidence"})]),
     ("run.compute_initial_posterior", [("redraw", {"compute_initial_posterior": True})]),
     ("run.posterior_sampling_method", ["rejection_sampling", "multinomial_resampling", "importance_sampling", ("!", "x")]),
+    ("flow_config<deprecated-layout>", [("oldcfg", {"max_epochs": 5, "patience": 5, "batch_size": 100}), ("oldcfg", {"model_config": {"n_blocks": 2, "n_neurons": 4, "n_layers": 1}, "max_epochs": 5, "patience": 5})]),
     ("flow_config.ftype", ["realnvp", "maf", "nsf", ("!", "xyz")]),
     ("flow_config.linear_transform", [None, "lu"]),
     ("flow_config.batch_norm_between_layers", [True]),
@@ -150,7 +152,7 @@ def build(kind, name, value):
     """Translate one (option, value) into (kwargs, run_kwargs, model, invalid?, label)."""
     kw, rkw, model, invalid = {}, {}, None, False
     tag = None
-    if isinstance(value, tuple) and len(value) == 2 and value[0] in ("!", "plot", "plotcls", "insplot", "aug", "cv0", "noise", "angle", "ramp", "pair", "pair-bad", "redraw", "entropy", "hole", "nimin"):
+    if isinstance(value, tuple) and len(value) == 2 and value[0] in ("!", "plot", "plotcls", "insplot", "aug", "cv0", "noise", "angle", "ramp", "pair", "pair-bad", "redraw", "entropy", "hole", "nimin", "oldcfg"):
         tag, value = value
     if tag == "!":
         invalid = True
@@ -204,6 +206,10 @@ def build(kind, name, value):
         model = "G2hole"
     elif tag == "nimin":
         kw["n_initial"], kw["min_samples"] = value
+    elif tag == "oldcfg":
+        # the deprecated (still documented, FutureWarning) layout: training keys inside flow_config
+        kw["flow_config"] = dict(value)
+        kw["training_config"] = None
     elif name == "reparameterisations" and isinstance(value, str) and value == "inversion-duplicate":
         kw[name] = {"x0": {"reparameterisation": "inversion", "detect_edges": False, "boundary_inversion": ["upper"], "inversion_type": "duplicate"}}
     elif name == "threshold_kwargs":
@@ -424,6 +430,17 @@ def run(ctx):
         again = {c["label"]: r for c, r in ctx.pmap(worker_long, slow, nproc=4)}
         results = [(cfg, again.get(cfg["label"], res) if res["status"] == "wall-clock" else res) for cfg, res in results]
         ctx.set("runs_repeated_after_wall_clock", len(slow))
+    # accepted options must also survive an interruption: every single-option run that completed is
+    # run again, killed at its first checkpoint and resumed with the same keyword arguments
+    single = [cfg for cfg, res in results if res["status"] == "completed" and not cfg["invalid"] and "+" not in cfg["label"] and ":population-product:" not in cfg["label"]]
+    resumed = [dict(cfg, kill_at=(1,), label=cfg["label"] + "+killed-at-first-checkpoint-and-resumed") for cfg in single]
+    res2 = list(ctx.pmap(worker, resumed))
+    slow2 = [cfg for cfg, res in res2 if res["status"] == "wall-clock"]
+    if slow2:
+        again = {c["label"]: r for c, r in ctx.pmap(worker_long, slow2, nproc=4)}
+        res2 = [(cfg, again.get(cfg["label"], res) if res["status"] == "wall-clock" else res) for cfg, res in res2]
+    ctx.set("runs_repeated_with_an_interruption", len(res2))
+    results += res2
     for cfg, res in results:
         ctx.count("evaluations")
         stats[res["status"]] = stats.get(res["status"], 0) + 1
@@ -438,10 +455,15 @@ def run(ctx):
             # one underlying input: with maximum_uninformed=0 the INITIAL live points are drawn from the
             # untrained flow proposal, whose (collapsed) output may lie outside the prior bounds
             label = "std:maximum_uninformed=0(+any option): initial live points drawn from the untrained flow"
+        if res["status"] == "population-does-not-terminate" and cfg["kind"] == "ins" and "reparameterisation" in kwc and kwc["reparameterisation"] is None and "ImportanceFlowProposal.draw" in res["detail"]:
+            # one underlying input: without a reparameterisation a trained flow can put all of its mass outside
+            # the unit hypercube and ImportanceFlowProposal.draw has no bound (which level / seed / leg of an
+            # interrupted run meets it depends on the random stream)
+            label = "ins:reparameterisation=None"
         ctx.violation(f"{res['status']}@{label}", f"{res['status']}: {res['detail']} (model {cfg['model']}, seed {cfg['seed']})", {"cfg": {k: v for k, v in cfg.items() if k != 'kwargs' or True}})
     ctx.set("outcomes", stats)
     ctx.set("distinct_nontrivial", len({c["label"] for c in cs}))
-    ctx.set("rule", "every value of every option of the alphabet on its own (deviation 1) for both samplers on G2 (quick) / G2 and G3 with two seeds (thorough), plus every pair of valid values of two different options (thorough), plus the product of the options that steer the latent contour / retraining / pool size over several seeds (quick: the sub-lattice where the radius varies between populations of one flow). Each run is classified: rejected before the first live point is drawn / completed and passing the C05 oracle / failing during sampling / failing after sampling / population loop exceeding 1000x its nominal number of latent draws / wall clock (120 s in the parallel sweep; a run stopped by it is repeated with few neighbours and a 900 s bound, and only that outcome counts). Distinct/non-trivial: distinct option assignments")
+    ctx.set("rule", "every value of every option of the alphabet on its own (deviation 1) for both samplers on G2 (quick) / G2 and G3 with two seeds (thorough), plus every pair of valid values of two different options (thorough), plus the product of the options that steer the latent contour / retraining / pool size over several seeds (quick: the sub-lattice where the radius varies between populations of one flow). Every single-option run that completed is repeated with a kill at its first checkpoint followed by a resume with the same keyword arguments. Each run is classified: rejected before the first live point is drawn / completed and passing the C05 oracle / failing during sampling / failing after sampling / population loop exceeding 1000x its nominal number of latent draws / wall clock (120 s in the parallel sweep; a run stopped by it is repeated with few neighbours and a 900 s bound, and only that outcome counts). Distinct/non-trivial: distinct option assignments")
     ctx.set("exhaustive", True)
     ctx.sample({"case": cs[3]["label"], "kwargs": str(cs[3]["kwargs"])})
     ctx.assume(
